@@ -49,7 +49,7 @@ func init() {
 		ID: "C06",
 		Rule: "rapid histories over consecutive dogfood epochs with many operators, tied and sub-unit powers, a small validator maximum, key replacements, opt-ins/outs and jailing; the eligible top set is recomputed independently at every epoch-closing block and compared with previous set + returned updates (applied with CometBFT's own ValidatorSet code); " +
 			"non-trivial = an update list with an addition, a removal and a power change, or a power tie exactly at the cut; distinct = hash of the (kind, outcome) sequence",
-		Gen:        GenOpts{Weights: w, HostilePct: 2, ExtremePct: 0, Anchor: false, Tempos: []int{15, 40, 70}, CapBits: 40},
+		Gen:        GenOpts{Weights: w, HostilePct: 2, ExtremePct: 0, Anchor: false, Tempos: []int{15, 40, 70}, CapBits: 40, ClampBits: 50},
 		MinSteps:   30,
 		MaxSteps:   90,
 		Config:     valsetConfig,
@@ -75,7 +75,7 @@ func init() {
 			"non-trivial = at least 2 operators with keys, a replacement of an active key, and an epoch end after it; distinct = hash of the (kind, outcome) sequence",
 		Gen: GenOpts{Weights: map[string]int{
 			"nextBlock": 26, "optIn": 12, "setKey": 16, "optOut": 8, "jail": 3, "unjail": 3, "slash": 4, "delegate": 6, "depositLST": 4, "undelegate": 5,
-		}, HostilePct: 2, ExtremePct: 0, Anchor: true, Tempos: []int{15, 40, 70}, CapBits: 40},
+		}, HostilePct: 2, ExtremePct: 0, Anchor: true, Tempos: []int{15, 40, 70}, CapBits: 40, ClampBits: 50},
 		MinSteps: 30,
 		MaxSteps: 90,
 		Config:   valsetConfig,
